@@ -29,7 +29,7 @@ PATH_OF = {':x': ['q', 'zz', 'b'], ':y': ['q'], '<x:int>': ['12', '-7', '007'], 
            '<q.path()>': ['zz/y'], '<x>': ['m', 'é'], '<k>': ['m'], '<x:re:[a-z]+>': ['abc'], '<v:float>': ['1.5', '-0.25', '3'],
            '<n:int>': ['1', '42'], '<m:int>': ['2', '-3'], '<name>': ['n', '<i>&"\''], '<rest:path>': ['r/s', 't'],
            '<day:re:[0-9][0-9]>': ['07', '31'], '<mon>': ['may'], '<a>': ['1', 'x y'], '<b>': ['2']}
-MISS_PATHS = ['/nope/x', '/a/', '/a/b/c/d', '', '/', '/zz<q>"\'&', '/u/m', '/i/1/x', '//']
+MISS_PATHS = ['/nope/x', '/a/', '/a/b/c/d', '', '/', '/zz<q>"\'&', '/u/m', '/i/1/x', '//', '/http://[', '/a/http://[x', '//[x']
 
 ACCEPTS = [None, None, None, '', 'text/html', '*/*', 'text/html, application/json', 'Application/JSON']
 JSON_ACCEPTS = ['application/json', 'application/json, text/html;q=0.5', 'application/json; charset=utf-8']
@@ -106,6 +106,8 @@ def gen_case(rng):
             if ast is not None:
                 asts.append(ast)
         ms = rng.sample(REG_NAMES, rng.choice([1, 1, 2, 3]))
+        if rng.random() < .02:
+            ms.append(rng.choice(['G\nT', 'PO\0ST', 'X\rY']))       # a name `_hval` refuses in the Allow header
         arg = ms[0] if (len(ms) == 1 and rng.random() < .3) else ms
         adds.append(len(ops))
         ops.append(['A', rule, arg, rng.choice([None] * 6 + ['n1', 'n2']), rng.random() < .15])
@@ -263,6 +265,16 @@ def url_state(rq, config):
     return fp, err
 
 
+def allow_refused(app, rq):
+    """the 405 this request gets would carry an Allow value `_hval` refuses (a listed seam of App.serve)"""
+    if not rq['decodable']:
+        return False
+    verb = rq['verb'].upper()
+    cands = [verb] + (['GET'] if verb == 'HEAD' else []) + ['ANY']
+    ep, err = app.router.resolve('/' + rq['path'].lstrip('/'), cands)
+    return bool(err) and err[0] == 405 and bool(re.search(r'[\r\n\0]', err[2]))
+
+
 def run_real(case, validate=False):
     """-> (runner, observations of the measured request | None when Request.url raises, url error name, fullpath parameter)"""
     log = zoo.Log()
@@ -288,7 +300,9 @@ def run_real(case, validate=False):
     fp, uerr = url_state(rq, app.config)
     run.calls = []
     if uerr is not None:
-        return run, None, uerr, fp
+        return run, None, 'url-error:' + uerr, fp
+    if allow_refused(app, rq):
+        return run, None, 'allow-refused', fp
     _, fix = environ_fix(rq, log)
     obs = zoo.serve_one(app, log, cur, zoo_req(rq), env_cls=fix, validate=validate)
     return run, obs, None, fp
@@ -320,7 +334,7 @@ def plain_spec(spec):
 def answer_of(case, run, obs, uerr):
     reg = 'reg=' + (','.join(run.answers) if run.answers else '-') + ' '
     if uerr is not None:
-        return reg + 'outside:url-error:' + uerr
+        return reg + 'outside:' + uerr
     ev = '.'.join(obs['log']) if obs['log'] else '-'
     called = 'h' in obs['log']
     if called and run.calls:
@@ -367,7 +381,7 @@ def run_case(case, stats=None):
             stats[k] = stats.get(k, 0) + 1
         bump('app:cases')
         if uerr:
-            bump('app:outside-url')
+            bump('app:outside:' + uerr.split(':')[0])
         elif obs['starts']:
             code = obs['starts'][0][0][:3]
             bump('app:status:' + code)
@@ -484,7 +498,8 @@ def oracle_case(case):
     # -- C03 on the composed run: the route result is what the real router did
     if called and run.calls:
         p = case['progs'].get(run.calls[0][0]) or case['progs'].get(str(run.calls[0][0])) or [[], ('ret', ('t', 'h')), False]
-        route = ('h', p[0], p[1])
+        res = ('ret', ('t', 'echo')) if (p[2] and p[1][0] == 'ret') else p[1]      # an echoing handler returns text
+        route = ('h', p[0], res)
     else:
         route = ('nf',)
     zreq = dict(zoo_req(rq), route=route)
@@ -539,6 +554,23 @@ def oracle_case(case):
     return bad
 
 
+def pep_case(case):
+    """the same case with an environ a PEP 3333 server can send (the oracle runs under wsgiref.validate)"""
+    c = dict(case, req=dict(case['req'], env=dict(case['req']['env'])), warm=None)
+    rq, env = c['req'], c['req']['env']
+    if env['scheme'] not in ('http', 'https'):
+        env['scheme'] = 'http'
+    env['sname'] = env['sname'] or 'srv'
+    env['sport'] = env['sport'] or '80'
+    if not env['script'] or not env['script'].startswith('/') or env['script'] == '/':
+        env['script'] = ''            # the validator reads the key
+    if (rq['path'] or not rq['decodable']) and not rq['path'].startswith('/'):
+        rq['path'] = '/' + rq['path']
+    if case.get('warm'):
+        c['warm'] = pep_case(dict(case, req=case['warm'], warm=None))['req']
+    return c
+
+
 def taint(case):
     """plant the marker behind every special character of the request texts"""
     c = dict(case, req=dict(case['req'], env=dict(case['req']['env'])))
@@ -560,6 +592,7 @@ def search_stream(rng, n, pid, seeds, stats):
         try:
             if not in_domain(case):
                 continue
+            case = pep_case(case)
             evals += 1
             variants = [case]
             if any(ch in case['req']['path'] + (case['req']['env'].get('qs') or '') for ch in '<>"\''):
